@@ -16,7 +16,8 @@ Inductive callid :=
 | KNextId | KStoreChannel | KChannelOpen | KTestOpen | KTestClosed
 | KRegisterWrite | KTagsInPlace | KTagsRebind
 | KTestRunning | KClearRunning | KTimerCreate | KTimerStart | KTimerCancel | KSendHeartbeat
-| KStoreRequest | KStoreResponse | KAppendResponse | KWaitFor | KGetFrame | KRpcRemove | KOther.
+| KStoreRequest | KStoreResponse | KAppendResponse | KWaitFor | KGetFrame | KRpcRemove
+| KTestClosing | KUnlessClosing | KOther.
 
 Inductive tok :=
 | TWith (l : lockid) | TEndWith
@@ -50,6 +51,7 @@ Definition callid_eqb (a b : callid) : bool :=
   | KTimerStart, KTimerStart | KTimerCancel, KTimerCancel | KSendHeartbeat, KSendHeartbeat
   | KStoreRequest, KStoreRequest | KStoreResponse, KStoreResponse | KAppendResponse, KAppendResponse
   | KWaitFor, KWaitFor | KGetFrame, KGetFrame | KRpcRemove, KRpcRemove
+  | KTestClosing, KTestClosing | KUnlessClosing, KUnlessClosing
   | KOther, KOther => true
   | _, _ => false
   end.
